@@ -11,6 +11,7 @@ import (
 	"os/exec"
 	"path/filepath"
 	"strings"
+	"sync"
 	"time"
 )
 
@@ -320,16 +321,25 @@ func (t *Task) Execute() {
 // already exist, so that the tasks writing to those FIFOs are not blocked
 // forever waiting for a reader.
 func (t *Task) drainStreamingInputs() {
+	// The FIFOs are drained concurrently: opening one of them blocks until its
+	// writer opens it too, and the upstream task(s) write to them in an order
+	// of their own
+	var drains sync.WaitGroup
 	for _, iip := range t.InIPs {
 		if iip.doStream {
-			fifo, err := os.Open(iip.FifoPath())
-			if err != nil {
-				continue
-			}
-			io.Copy(ioutil.Discard, fifo)
-			fifo.Close()
+			drains.Add(1)
+			go func(fifoPath string) {
+				defer drains.Done()
+				fifo, err := os.Open(fifoPath)
+				if err != nil {
+					return
+				}
+				io.Copy(ioutil.Discard, fifo)
+				fifo.Close()
+			}(iip.FifoPath())
 		}
 	}
+	drains.Wait()
 }
 
 // anyTempFileExists checks if any temporary workflow files exist and if so, returns true
